@@ -17,9 +17,10 @@ import (
 // Kind "packed" unpacks and re-packs Data (arbitrary bytes) after Dst; Kind "ntoi"
 // checks Ntoi/Iton on every byte of Data.
 type C13Case struct {
-	Kind string `json:"kind"`
-	Dst  gen.B  `json:"dst"`
-	Data gen.B  `json:"data"`
+	Kind  string `json:"kind"`
+	Dst   gen.B  `json:"dst"`
+	Data  gen.B  `json:"data"`
+	Spare int    `json:"spare,omitempty"` // capacity of dst, see sentinelDst
 }
 
 const dnaLetters = "aAcCgGtT"
@@ -31,6 +32,7 @@ func genC13(t *rapid.T, thorough bool) C13Case {
 		maxLen = 6000
 	}
 	c.Dst = gen.B(rapid.SliceOfN(rapid.Byte(), 0, 7).Draw(t, "dst"))
+	c.Spare = rapid.IntRange(0, 3).Draw(t, "spare")
 	c.Kind = rapid.SampledFrom([]string{"dna", "dna", "dna", "packed", "ntoi"}).Draw(t, "kind")
 	n := rapid.OneOf(rapid.IntRange(0, 9), rapid.IntRange(0, 70), rapid.IntRange(0, maxLen)).Draw(t, "len")
 	switch c.Kind {
@@ -46,12 +48,24 @@ func genC13(t *rapid.T, thorough bool) C13Case {
 	return c
 }
 
-func sentinelDst(dst []byte, extra int) []byte {
-	buf := make([]byte, len(dst), len(dst)+extra+8)
+// sentinelDst returns a copy of dst whose spare capacity is filled with sentinel bytes.
+// spare selects the capacity: 0 = ample (room for everything that will be appended),
+// 1 = none (cap == len), 2 = one byte, 3 = exactly what will be appended.
+func sentinelDst(dst []byte, extra int, spare int) []byte {
+	capacity := len(dst) + extra + 8
+	switch spare {
+	case 1:
+		capacity = len(dst)
+	case 2:
+		capacity = len(dst) + 1
+	case 3:
+		capacity = len(dst) + extra
+	}
+	buf := make([]byte, len(dst), capacity)
 	copy(buf, dst)
-	spare := buf[len(buf):cap(buf)]
-	for i := range spare {
-		spare[i] = 0xEE
+	rest := buf[len(buf):cap(buf)]
+	for i := range rest {
+		rest[i] = 0xEE
 	}
 	return buf
 }
@@ -61,6 +75,7 @@ func checkC13(c C13Case, o *Obs) error {
 	dataCopy := bytes.Clone(data)
 	o.Class("kind:" + c.Kind)
 	o.ClassIf(len(c.Dst) > 0, "non-empty dst")
+	o.ClassIf(len(c.Dst) > 0 && c.Spare != 0, "non-empty dst with tight capacity")
 	switch c.Kind {
 	case "ntoi":
 		o.NT = len(data) >= 2
@@ -88,7 +103,7 @@ func checkC13(c C13Case, o *Obs) error {
 
 	case "packed":
 		o.NT = len(data) >= 1
-		buf := sentinelDst(c.Dst, 4*len(data))
+		buf := sentinelDst(c.Dst, 4*len(data), c.Spare)
 		var dna []byte
 		if p := catch(func() { dna = sequtil.DNAFrom2Bit(buf, data) }); p != nil {
 			return fmt.Errorf("DNAFrom2Bit panicked: %v", p)
@@ -124,7 +139,7 @@ func checkC13(c C13Case, o *Obs) error {
 	o.ClassIf(lower, "lower case")
 	o.ClassIf(!valid, "invalid byte")
 	o.NT = valid && (len(data)%4 != 0 || len(c.Dst) > 0) && len(data) > 0
-	buf := sentinelDst(c.Dst, len(data)/4+1)
+	buf := sentinelDst(c.Dst, (len(data)+3)/4, c.Spare)
 	var got []byte
 	p := catch(func() { got = sequtil.DNATo2Bit(buf, data) })
 	if !bytes.Equal(data, dataCopy) {
@@ -186,6 +201,14 @@ func exhaustiveC13(thorough bool, emit func(C13Case) bool) {
 			return
 		}
 	}
+	// Every two-byte string (includes every valid two-byte UTF-8 sequence) for the accept/panic boundary.
+	for a := 0; a < 256; a++ {
+		for b := 0; b < 256; b++ {
+			if !emit(C13Case{Kind: "dna", Data: gen.B{byte(a), byte(b)}, Spare: (a + b) % 4}) {
+				return
+			}
+		}
+	}
 	// All DNA strings up to a length bound over the eight letters, dst prefixes of every length mod 4.
 	maxLen := 6
 	if thorough {
@@ -196,7 +219,7 @@ func exhaustiveC13(thorough bool, emit func(C13Case) bool) {
 	var rec func(prefix []byte) bool
 	rec = func(prefix []byte) bool {
 		n++
-		if !emit(C13Case{Kind: "dna", Data: bytes.Clone(prefix), Dst: dsts[n%len(dsts)]}) {
+		if !emit(C13Case{Kind: "dna", Data: bytes.Clone(prefix), Dst: dsts[n%len(dsts)], Spare: (n / len(dsts)) % 4}) {
 			return false
 		}
 		if len(prefix) == maxLen {
@@ -213,7 +236,7 @@ func exhaustiveC13(thorough bool, emit func(C13Case) bool) {
 }
 
 func keyC13(c C13Case) []byte {
-	k := append([]byte(c.Kind), byte(len(c.Dst)))
+	k := append([]byte(c.Kind), byte(len(c.Dst)), byte(c.Spare))
 	k = append(k, c.Dst...)
 	k = append(k, 0)
 	return append(k, c.Data...)
